@@ -192,6 +192,15 @@ func c27StraceCases(t *testing.T, out *vOut, seed uint64, root string, n int) {
 		s := c27GenStream(rnd, k)
 		var terms []string
 		var descs []any
+		var paths []string
+		for _, f := range byDir[fmt.Sprintf("s%02d", k)] {
+			paths = append(paths, f.Path)
+		}
+		if c27Collides(paths) {
+			// the known name collision (see CSeg): the traced files were truncated by their successors
+			out.Case("", map[string]any{"stream": s, "paths": paths}, "strace: "+s.Kind+"+name-collision (skipped)", false)
+			continue
+		}
 		for _, f := range byDir[fmt.Sprintf("s%02d", k)] {
 			g, err := c27ReadSeg(f.Path, true)
 			if err != nil {
